@@ -2074,6 +2074,28 @@ async fn admission_replay() {
                         }
                     }
                 }
+                "probe" => {
+                    // what the remote end of connection <id> has seen so far: an OPEN, the end of the stream, or nothing
+                    let id: usize = t[1].parse().unwrap();
+                    settle().await;
+                    match sess.get_mut(id - 1).and_then(|s| s.remote.as_mut()) {
+                        None => "norecord".into(),
+                        Some(r) => {
+                            let mut buf = [0u8; 64];
+                            match tokio::time::timeout(Duration::from_millis(400), r.read(&mut buf)).await {
+                                Err(_) => "silent".into(),
+                                Ok(Ok(0)) | Ok(Err(_)) => "closed".into(),
+                                Ok(Ok(n)) => {
+                                    if n >= 19 && buf[18] == 1 {
+                                        "open".into()
+                                    } else {
+                                        format!("bytes{n}")
+                                    }
+                                }
+                            }
+                        }
+                    }
+                }
                 x => panic!("harness: op {x}"),
             };
             // let freshly accepted sessions start, unless a session tail is pending (it must run at its `end` step)
